@@ -57,6 +57,10 @@ def truth(v):
         return v.length > 0 if is_z3(v.length) else v.length > 0
     if isinstance(v, OptV):
         return z3.And(z3.Not(v.isnone), _tb(truth(v.val)))
+    from .values import SetV as _SetV, MapV as _MapV, fresh_name as _fresh
+    if isinstance(v, (_SetV, _MapV)):
+        k = z3.Const(_fresh("m"), v.dom.sort().domain())     # non-empty: some key is a member
+        return z3.Exists([k], z3.Select(v.dom, k))
     if isinstance(v, (ObjV, StrV)):
         return True
     if isinstance(v, str):
